@@ -123,6 +123,9 @@ pub fn explore(opts: &Opts) -> Explored {
                 let expect = if *kind == 7 { apply_ref_raw(op, &[&rt]) } else { apply_ref(op, &[&rt]) };
                 if let Err(RErr::Domain) | Err(RErr::Unspecified) = expect {
                     l.count("skipped_domain");
+                    if std::env::var("VERIF_DEBUG_SKIPS").is_ok() {
+                        eprintln!("SKIP {}", case());
+                    }
                     continue;
                 }
                 let a = arr(d, &v);
